@@ -583,7 +583,45 @@ def rule_pool_filter(ctx):
     C10.rule_pool_construction(R.Retag(ctx, "C10."))
 
 
+def rule_filter_installed(ctx):
+    """R1: the filter an analyzer is configured with is the filter it applies: `with_filter(config)` hands back the analyzer with
+    `filter_config = Some(config)` on every path - whatever the configuration contains (a configuration the builder judges empty or
+    trivial from some of its parts still constrains through the others)"""
+    P = ctx.program
+    n = 0
+    for b in sorted(P.bodies.values(), key=lambda x: x.path):
+        if b.name != "with_filter" or b.kind != "AssocFn" or b.arg_count != 2 or "FilterConfig" not in b.local_ty(2):
+            continue
+        fam = b.crate
+        alts = TB.return_sites(b, P, True)
+        bad = []
+        for (rb, j, term, _c) in alts:
+            idx = None
+            for adt in P.adts.values():
+                if adt["path"].split("<")[0].endswith((b.impl_self or "?").split("<")[0].split("::")[-1]) and adt["path"].startswith(b.crate + "::"):
+                    idx = next((k_ for k_, f_ in enumerate(adt["variants"][0]["fields"]) if f_["name"] == "filter_config"), None)
+            f = T.field(T.strip(term), "filter_config", idx)
+            vals = [T.strip(x) for x in (T.strip(f)[1] if T.strip(f)[0] == "phi" else (f,))]
+            # `self` updated in one field reads as the merge of the parameter and the update: the update is the field's value
+            if any(v[0] != "field" for v in vals):
+                vals = [v for v in vals if not (v[0] == "field" and T.strip(v[1])[0] == "param")]
+            for v in vals:
+                if v == T.NODEF:
+                    continue
+                okv = v[0] == "agg" and v[3] == "Some" and len(v[4]) == 1 and T.strip(v[4][0])[0] == "param" and T.strip(v[4][0])[1] == 1
+                if v[0] == "field" or not okv:
+                    bad.append((rb, T.pp(v)[:80]))
+            if all(v == T.NODEF for v in vals):
+                bad.append((rb, "filter_config not written"))
+        n += 1
+        ctx.check(not bad and alts, "R1", fam + ":with_filter:installs", "with_filter returns the analyzer with filter_config = Some(config) (%d returns)" % len(alts),
+                  "with_filter can hand back the analyzer with filter_config = %s: the configured filter is not installed for some configurations "
+                  "and packets it excludes are analysed and reported" % (sorted(set(x[1] for x in bad))[:3],), ctx.loc(b, bad[0][0]) if bad else ctx.loc(b))
+    ctx.floor("R1", "with_filter builders", n, 4)
+
+
 def run(ctx):
+    rule_filter_installed(ctx)
     rule_pool_filter(ctx)
     rule_link_order(ctx)
     rule_siblings(ctx)
